@@ -141,3 +141,38 @@ Proof.
   split; [exact Hne|]. split; [reflexivity|]. split; [exact H1|]. split; [exact H3|].
   exists t2. split; [exact H2|]. split; [exact H4|]. apply delete_duplicate_outputs_spec; exact E3.
 Qed.
+
+(* ---- the rows of the normalised table are (negation-normalised) rows of the argument ---- *)
+Lemma dedup_loop_rows : forall rest prev new_rev map_rev t3 mp,
+  dedup_loop prev rest new_rev map_rev = (t3, mp) ->
+  forall row, In row t3 -> In row new_rev \/ In row rest.
+Proof.
+  induction rest as [|r rest IH]; intros prev new_rev map_rev t3 mp H row Hin; simpl in H.
+  - injection H as <- _. left. apply in_rev; exact Hin.
+  - destruct (IH _ _ _ _ _ H row Hin) as [H1|H1]; [|right; right; exact H1].
+    destruct (row_eqb r prev); [left; exact H1|]. destruct H1 as [<-|H1]; [right; left; reflexivity|left; exact H1].
+Qed.
+
+Lemma delete_duplicate_outputs_rows t2 t3 mp :
+  delete_duplicate_outputs t2 = Ok (t3, mp) -> forall row, In row t3 -> In row t2.
+Proof.
+  destruct t2 as [|row0 rest]; [discriminate|]. unfold delete_duplicate_outputs. intros H. injection H as E.
+  intros row Hin. destruct (dedup_loop_rows _ _ _ _ _ _ E row Hin) as [[<-|[]]|H]; [left; reflexivity|right; exact H].
+Qed.
+
+Theorem normalize_rows t ni :
+  normalize t = Ok ni -> forall row, In row (norm_table ni) -> exists r, In r t /\ r <> [] /\ row = negated_row r.
+Proof.
+  unfold normalize. destruct (normalize_outputs t) as [[negs t1]|] eqn:E1; cbv beta iota delta [bind fst snd]; [|discriminate].
+  destruct (sort_outputs t1) as [perm t2] eqn:E2.
+  destruct (delete_duplicate_outputs t2) as [[t3 mp]|] eqn:E3; cbv beta iota delta [bind fst snd]; [|discriminate].
+  intros [= <-] row Hin. simpl in Hin.
+  apply (delete_duplicate_outputs_rows _ _ _ E3) in Hin.
+  destruct (normalize_outputs_spec _ _ _ E1) as (_ & -> & Hne).
+  destruct (sort_outputs_spec _ _ _ E2) as (H1 & H2 & _ & H4).
+  apply In_nth_error in Hin as (k & Hk).
+  assert (k < length perm)%nat as Hkl by (rewrite H1, <- H2; apply nth_error_Some; congruence).
+  destruct (nth_error perm k) as [p|] eqn:Ep; [|apply nth_error_None in Ep; lia].
+  specialize (H4 _ _ _ Ep Hk). apply nth_error_In in H4. apply in_map_iff in H4 as (r & <- & Hr).
+  exists r. split; [exact Hr|]. split; [|reflexivity]. rewrite Forall_forall in Hne. apply Hne; exact Hr.
+Qed.
